@@ -55,37 +55,25 @@ PathShape(s) == IF s = <<>> THEN "ok" ELSE ShapeLoop(s, 1, TRUE, FALSE)
 CanonicalSeg(seg) ==
   LET ix == ParseI64(seg)
   IN ix = NoIndex \/ seg = (IF ix.neg THEN <<45>> ELSE <<>>) \o DecDigits(ix.mag)
+\* does the walk of the path through this data ever apply a non-canonical integer spelling ("+1", "01", "-0")
+\* as an INDEX (array or string step)?  As an object key every spelling is just a key.
+RECURSIVE OddIndexUsed(_, _, _)
+OddIndexUsed(cur, segs, i) ==
+  IF i > Len(segs) THEN FALSE
+  ELSE IF cur.t \in {"a", "s"} THEN (~CanonicalSeg(segs[i]) \/ (LET r == PathStep(cur, segs[i]) IN r.found /\ OddIndexUsed(r.v, segs, i + 1)))
+  ELSE IF cur.t = "o" THEN (LET r == PathStep(cur, segs[i]) IN r.found /\ OddIndexUsed(r.v, segs, i + 1))
+  ELSE FALSE
+PinnedKeyOn(k, d) ==
+  CASE k.t = "z" -> TRUE
+    [] k.t = "s" -> PathShape(k.v) = "ok" /\ ~OddIndexUsed(d, SplitWithEscape(k.v, 46), 1)
+    [] k.t = "n" -> k.k = "i"
+    [] OTHER -> FALSE
+\* data-independent version (conservative): no odd spelling anywhere
 PinnedKey(k) ==
   CASE k.t = "z" -> TRUE
     [] k.t = "s" -> PathShape(k.v) = "ok" /\ \A j \in DOMAIN SplitWithEscape(k.v, 46) : CanonicalSeg(SplitWithEscape(k.v, 46)[j])
     [] k.t = "n" -> k.k = "i"
     [] OTHER -> FALSE
-
-\* ---- benign operands: an operand list on which operator k succeeds for every accepted count
-S_a == <<97>>
-S_abc == <<97, 98, 99>>
-S_hello == <<104, 233, 108, 108, 111>>
-NumsA == <<IntV(1), IntV(2), IntV(3), IntV(4), IntV(5), IntV(6), IntV(7)>>
-NumsB == <<IntV(0), IntV(-1), IntV(2), IntV(9), IntV(1), IntV(1), IntV(3)>>
-NumsC == <<IntV(7), IntV(7), IntV(7), IntV(7), IntV(7), IntV(7), IntV(7)>>
-Nums(v) == IF v = 1 THEN NumsA ELSE IF v = 2 THEN NumsB ELSE NumsC
-SumExpr == Op(K_add, <<VarOf(S_current), VarOf(S_accumulator)>>)
-Arr12 == Arr(<<IntV(1), IntV(2)>>)
-
-\* a benign operand for operator k at position j (variant v): the operation succeeds for every accepted count
-BenignAt(k, j, v) ==
-  CASE k = K_in /\ j = 1 -> Str(S_a)
-    [] k = K_in /\ j = 2 -> IF v = 1 THEN Str(S_abc) ELSE Arr(<<Str(S_a)>>)
-    [] k = K_substr /\ j = 1 -> Str(S_hello)
-    [] k = K_var /\ j = 1 -> IF v = 1 THEN Str(S_a) ELSE IF v = 2 THEN IntV(0) ELSE Null
-    [] k = K_missing -> IF v = 1 THEN Str(S_a) ELSE Str(<<98, 46, 48>>)
-    [] k = K_missing_some /\ j = 2 -> Arr(<<Str(S_a), Str(<<120>>)>>)
-    [] k \in {K_map, K_filter, K_all, K_some, K_none, K_reduce} /\ j = 1 -> IF v = 3 THEN Null ELSE Arr12
-    [] k \in {K_map, K_filter, K_all, K_some, K_none} /\ j = 2 -> IF v = 1 THEN VarOf(<<>>) ELSE IntV(1)
-    [] k = K_reduce /\ j = 2 -> SumExpr
-    [] OTHER -> Nums(v)[j]
-Benign(k, n, v) == [j \in 1..n |-> BenignAt(k, j, v)]
-
 
 \* the 35 operator names in a fixed order
 OpSeq == <<K_eq, K_ne, K_seq, K_sne, K_not, K_notnot, K_lt, K_lte, K_gt, K_gte, K_add, K_sub, K_mul, K_div, K_mod,
